@@ -292,14 +292,14 @@ def model_lines(case, houts):
     return out
 
 
-def run_model(cases, houts_all):
+def run_model(cases, houts_all, mode="enginecheck"):
     lines = []
     counts = []
     for c, h in zip(cases, houts_all):
         ml = model_lines(c, h)
         lines += ml
         counts.append(2 + len(c.ops))       # W, P(+rules -> one output), ops
-    p = subprocess.run([C.model_exe(), "enginecheck"], input=("\n".join(lines) + "\n").encode(),
+    p = subprocess.run([C.model_exe(), mode], input=("\n".join(lines) + "\n").encode(),
                        stdout=subprocess.PIPE, stderr=subprocess.PIPE)
     out = p.stdout.decode().split("\n")
     res, pos = [], 0
